@@ -33,6 +33,13 @@ std::arch::global_asm!(
     "movdqu xmm13, [rax + 336]",
     "movdqu xmm14, [rax + 352]",
     "movdqu xmm15, [rax + 368]",
+    // data segment selectors (0 or the 32-bit user data selector 0x2b), distinct per thread: es [112], ds [120], gs [104]
+    "mov cx, [rax + 112]",
+    "mov es, cx",
+    "mov cx, [rax + 120]",
+    "mov ds, cx",
+    "mov cx, [rax + 104]",
+    "mov gs, cx",
     "mov rbx, [rax + 0]",
     "mov rdx, [rax + 8]",
     "mov rsi, [rax + 16]",
@@ -241,6 +248,10 @@ fn main() {
                 if a == libc::MAP_FAILED {
                     fmaps.push(json!({"path": p, "error": "mmap"}));
                 } else {
+                    // "split": the last page gets other permissions, so that the kernel reports the file as two adjacent lines
+                    if f["split"].as_bool().unwrap_or(false) && len >= 2 * PAGE {
+                        unsafe { libc::mprotect((a as usize + len - PAGE) as *mut libc::c_void, PAGE, libc::PROT_READ | libc::PROT_WRITE) };
+                    }
                     fmaps.push(json!({"path": p, "addr": a as usize, "len": len, "off": off}));
                 }
                 if f["delete"].as_bool().unwrap_or(false) {
@@ -397,6 +408,12 @@ fn thread_main(slot: usize, t: Value, regions: std::collections::HashMap<String,
         sent.insert(n.to_string(), json!(format!("{:x}", tbl[i])));
     }
     tbl[12] = sp as u64;
+    // selectors by the bits of the seed, so that es, ds and gs differ from each other in most threads
+    tbl[14] = if seed & 1 != 0 { 0x2b } else { 0 };
+    tbl[15] = if seed & 2 != 0 { 0x2b } else { 0 };
+    if t.get("spin_word").is_none() {
+        tbl[13] = if seed & 4 != 0 { 0x2b } else { 0 };
+    }
     if let Some((a, _, _, _)) = t.get("spin_word").and_then(|v| v.as_str()).and_then(|n| regions.get(n)) {
         tbl[13] = *a as u64;
     }
